@@ -134,7 +134,7 @@ MSpec == MInit /\ [][MNext]_mvars
 WellFormed ==
   \A i \in 1..Len(trunk) : trunk[i][1] = "P" =>
      \/ (i > 1 /\ trunk[i-1] = <<"H", trunk[i][2]>>)
-     \/ (i = 1 /\ rpc = "pay" /\ rcur = trunk[i][2])
+     \/ (i = 1 /\ rpc \in {"pay", "stopped"} /\ rcur = trunk[i][2])
      \/ cut
 \* what a consumer got plus what is queued for it is a prefix of what was sent on its connection
 PrefixInv == \A c \in Conns : IsPrefix(rcvd[c] \o q[c], sent[c])
